@@ -9,6 +9,7 @@ const TRIVIA: &[&str] = &[" ", "  ", "\t", "\n", "\n\n", " // note\n", " /* c */
     // comments whose text begins or ends with the delimiter characters
     " /*/ a */ ", " /*/*/ ", " /***/ ", " /**/ ", " /* /* */ ", " /*//*/ ", " /*/\n*/ ", " /* a **/ ", " /* \" */ ", " /* ' */ ", " // */\n", " // /*\n", " /// \"\n", " /* *//**/ ",
 ];
+const PRE_DIRECTIVE: &[&str] = &[" ", "\t", "/* c */ ", "/**/", "/* a\n b */ ", " \\\n", "/*/ */\t", "  /* x */  /* y */ "];
 const HTRIVIA: &[&str] = &[" ", "  ", "\t", " \\\n ", "\t\t"];
 
 /// Insert trivia at token boundaries. Boundaries: every existing blank or newline (replaced by a
@@ -37,6 +38,13 @@ fn add_trivia(text: &str, picks: &[u8]) -> (String, usize, usize) {
         let mut i = 0;
         let mut prev = b'\n';
         let mut seen_define_name = false;
+        if directive {
+            // in front of the `#`: blanks, comments (also ending on this line after starting on an earlier one) and a
+            // line splice still leave it a directive
+            if let Some(t) = next(PRE_DIRECTIVE, &mut kinds, &mut used) {
+                out.push_str(t);
+            }
+        }
         while i < bytes.len() {
             let c = bytes[i];
             let after_angle = prev == b'<' || prev == b'>';
@@ -285,7 +293,7 @@ fn make_record(ch: &[u32], variant: u8, which: u8, picks: &[u8], t: usize) -> Va
 }
 
 pub fn run(ctx: &mut Ctx) {
-    ctx.rule = "Generated programs (accepted, or rejected through one injected erroneous statement from an 8-entry catalogue incl. an error inside a macro expansion; with and without an include file holding the error; with object-like macros and function-like macros of 0, 1 and 2 parameters, also nested) x 6 trivia variants: at every existing blank/newline and on both sides of ( ) [ ] { } ; , a random choice of space, tabs, newlines, // and /* */ comments, backslash-newline splices and CRLF is inserted (never directly after < or >, never between a macro name and its parameter list; directive lines only get horizontal trivia and splices). Accepted: sources, stages, metadata and state identical. Rejected: still rejected with the same message. Located diagnostics x k in {1,2,7,50} blank or comment lines at the top of the file holding the error: same file, line + k, same column and message; lines added in other files do not move it. Non-trivial = >= 10 insertion points used with >= 3 trivia kinds, and for diagnostics a located error. Distinct = hash of the record.".into();
+    ctx.rule = "Generated programs (accepted, or rejected through one injected erroneous statement from an 8-entry catalogue incl. an error inside a macro expansion; with and without an include file holding the error; with object-like macros and function-like macros of 0, 1 and 2 parameters, also nested) x 6 trivia variants: at every existing blank/newline and on both sides of ( ) [ ] { } ; , a random choice of space, tabs, newlines, // and /* */ comments, backslash-newline splices and CRLF is inserted (never directly after < or >, never between a macro name and its parameter list; directive lines get horizontal trivia and splices between their tokens and blanks, comments or a splice in front of the #). Accepted: sources, stages, metadata and state identical. Rejected: still rejected with the same message. Located diagnostics x k in {1,2,7,50} blank or comment lines at the top of the file holding the error: same file, line + k, same column and message; lines added in other files do not move it. Non-trivial = >= 10 insertion points used with >= 3 trivia kinds, and for diagnostics a located error. Distinct = hash of the record.".into();
     if !ctx.replay_tier(&check_record) {
         return;
     }
